@@ -563,7 +563,7 @@ def refine(prop, rec, cfg=None, max_report=3):
     lines = [enc_step(cfg, s, rec) for s in steps]
     answers = vlib.run_driver(prop, lines)
     bad = []
-    stats = dict(steps=len(steps), extended=0, remeshed=0, lookup_rebuilt=0, nucleating=0, skipped=len(rec.steps) - len(steps))
+    stats = dict(steps=len(steps), extended=0, remeshed=0, lookup_rebuilt=0, nucleating=0, faulted=0, skipped=len(rec.steps) - len(steps))
     for i, (s, a) in enumerate(zip(steps, answers)):
         mo = dec_answer(a)
         if 'err' in mo:
@@ -575,6 +575,8 @@ def refine(prop, rec, cfg=None, max_report=3):
             stats['lookup_rebuilt'] += 1
         if any(y['nucRate'] > 0 for y in s['post']['hist'][0]['ph']):
             stats['nucleating'] += 1
+        if any(an.get('multi_asked') and an['multi'] is None for ev in s['eval_ans'] for an in ev['ph']):
+            stats['faulted'] += 1
         d = compare(s, mo, E)
         if d:
             bad.append((i, d[:6]))
@@ -634,6 +636,29 @@ def ensure_driver():
     return _BUILT[0]
 
 
+class FaultyTherm:
+    """forwards to the real thermodynamics object; `getGrowthAndInterfacialComposition` returns None (no equilibrium found) for the
+    calls whose running number is in `drop` — the transient backend failure kawin documents"""
+    def __init__(self, real, drop):
+        object.__setattr__(self, '_real', real); object.__setattr__(self, '_drop', drop); object.__setattr__(self, '_count', [0])
+
+    def __getattr__(self, name):
+        attr = getattr(object.__getattribute__(self, '_real'), name)
+        if name == 'getGrowthAndInterfacialComposition':
+            drop, count = object.__getattribute__(self, '_drop'), object.__getattribute__(self, '_count')
+
+            def wrapped(*a, **k):
+                count[0] += 1
+                if count[0] in drop:
+                    return None
+                return attr(*a, **k)
+            return wrapped
+        return attr
+
+    def __setattr__(self, name, value):
+        setattr(object.__getattribute__(self, '_real'), name, value)
+
+
 def scenario(name, rng):
     name = name.split('@')[0]
     """(model, simulated time, step cap) — real kawin models on the shipped databases"""
@@ -686,6 +711,19 @@ def scenario(name, rng):
         return kwnruns.build_binary(shape=name.split(':', 1)[1], ratio=rng.choice([1, 2, 3]), **small), 3600 * 5
     if name == 'nicral':
         return kwnruns.build_ternary(), 3600 * 10
+    if name == 'nicral-faults':
+        # transient backend failures (no equilibrium returned) at scripted growth requests, after precipitates exist
+        m = kwnruns.build_ternary()
+        start = rng.randint(25, 60)
+        drop = set(start + k for k in rng.sample(range(0, 60), rng.randint(3, 8))) | {start + 70, start + 71, start + 72}
+        m.therm = FaultyTherm(m.therm, drop)
+        return m, 3600 * 10
+    if name == 'alzr-preloaded':
+        # a size distribution loaded BEFORE the first setup(): setup() resets every PBM, so row 0 describes an empty distribution
+        m = kwnruns.build_binary(**small)
+        r1 = rng.uniform(0.6e-9, 1.0e-9)
+        m.PBM[0].LoadDistributionFunction(lambda r, r1=r1: 1e18 * np.exp(-((r - r1) / 0.1e-9) ** 2))
+        return m, 3600 * 5
     if name == 'almgsi-2phase':
         return _almgsi(['MGSI_B_P', 'MG5SI6_B_DP'], False, rng.getrandbits(20)), 3600 * 50
     if name == 'almgsi-2phase-loaded':
@@ -748,7 +786,7 @@ def _one(ctx, res, prop, name, cap, observer, oracles=()):
         detach(rec)
     res.traces += 1
     res.count('composed-step:%s:steps' % name, n)
-    for k in ('extended', 'remeshed', 'lookup_rebuilt', 'nucleating'):
+    for k in ('extended', 'remeshed', 'lookup_rebuilt', 'nucleating', 'faulted'):
         if stats[k]:
             res.count('composed-step:%s:%s' % (name, k), stats[k])
     res.case(('composed-step', name, n), n > 0)
@@ -764,6 +802,8 @@ def _one(ctx, res, prop, name, cap, observer, oracles=()):
 # The statements of the composed-step theorems (and of the property clauses they serve), evaluated on the IMPLEMENTATION's own
 # entry/exit states: when the refinement breaks because the code changed, these find the failing step on the real code.
 ORACLES = {
+    'fault':     'a growth request answered with "no result" at non-negative driving force keeps the interfacial tables and the growth field of the phase (the run continues from the last valid values, C03/C01)',
+    'setuprow':  'the row written by setup() describes the distribution held after setup(): density = M0, mean radius = M1/M0, fraction = scaled M3 (C02)',
     'rows':      'exactly one row appended per accepted step, stamped old time + accepted step, strictly later, not past the end time (C03)',
     'grid':      'stored grids consistent after the step: lengths, increasing boundaries, centres = midpoints, populations >= 0 (C03/C08)',
     'continuity': 'nothing changes the model state between two accepted steps, also across solve calls (C01/C02/C03)',
@@ -858,6 +898,32 @@ def step_oracles(res, rec, cfg, name, which):
             if abs(T - Tl) > cfg['maxTempChange'] * (1 + 1e-12):
                 res.violate('composed:lookup-table-stale', 'the interfacial-composition table in use after the step was computed %.3f K away from the recorded '
                             'temperature (maxTempChange %.3g)' % (abs(T - Tl), cfg['maxTempChange']), dict(case, T=T, table_T=Tl))
+    if 'fault' in which:
+        for i, st in enumerate(steps):
+            pa = st.get('post_ans')
+            if not pa or len(st['eval_ans']) != 1:
+                continue
+            for p, an in enumerate(pa['ph']):
+                yp = st['post']['hist'][0]['ph'][p]
+                if an.get('multi_asked') and an['multi'] is None and yp['dG'] >= 0 and st['post']['ph'][p]['bins'] == st['pre']['ph'][p]['bins'] \
+                        and not (st['upd'][p] and (st['upd'][p]['table'] or len(st['upd'][p]['xaNew']))):
+                    a, b = st['pre']['ph'][p], st['post']['ph'][p]
+                    for k in ('xaT', 'xbT', 'growth'):
+                        if not np.array_equal(np.asarray(a[k]), np.asarray(b[k])):
+                            res.violate('composed:fault-changes-' + ('tables' if k != 'growth' else 'growth-field'),
+                                        'the backend returned no result for a growth request at non-negative driving force, but ' +
+                                        ('the interfacial composition table' if k != 'growth' else 'the growth field') + ' of the phase was not kept',
+                                        dict(scenario=name, step=i, phase=p, which=k, t=st['post']['hist'][0]['time']))
+                            break
+    if 'setuprow' in which and rec.setup is not None:
+        post = rec.setup['post']
+        for p, ph in enumerate(post['ph']):
+            yp = post['hist'][0]['ph'][p]
+            psd, sz = np.asarray(ph['psd']), np.asarray(ph['size'])
+            m0 = float(psd.sum())
+            if not vlib.close(yp['dens'], m0 if m0 >= cfg['minDens'] else yp['dens'], 1e-9) or (m0 >= cfg['minDens'] and yp['dens'] == 0):
+                res.violate('composed:setup-row-not-moments', 'the row written by setup() reports a number density that is not the zeroth moment of the '
+                            'distribution the model holds after setup()', dict(scenario=name, phase=p), yp['dens'], m0)
     if 'recorded' in which:
         m = rec.m
         for p in range(rec.P):
